@@ -49,12 +49,29 @@ def gen_mesh_spec(rng, ndim=None, max_cells=120, nmax=6, bc_prob=0.0, names=True
     pmin = [Fraction(rng.randint(-40, 40), 2 ** rng.randint(0, 2)) for _ in range(ndim)]
     pmax = [a + k * c for a, k, c in zip(pmin, n, cell)]
     dims = rng.sample(NAMES, ndim) if (names and rng.random() < 0.5) else None
+    intcorners = False
+    if rng.random() < 0.2:
+        # integer-typed corners (Python ints), cells 1/2^k: faces and centres fall on non-integers
+        pmin = [Fraction(rng.randint(-9, 9)) for _ in range(ndim)]
+        pmax = [a + rng.randint(1, 6) for a in pmin]
+        n = [int((b - a) * rng.choice([1, 1, 2, 4])) for a, b in zip(pmin, pmax)]
+        while int(np.prod(n)) > max_cells:
+            k = rng.randrange(ndim)
+            n[k] = max(1, n[k] // 2) if n[k] > int(pmax[k] - pmin[k]) else n[k]
+            if all(x <= int(b - a) for x, a, b in zip(n, pmin, pmax)):
+                break
+        if int(np.prod(n)) <= max_cells and min(n) >= min_n:
+            intcorners = True
+        else:
+            pmin = [Fraction(rng.randint(-40, 40), 2 ** rng.randint(0, 2)) for _ in range(ndim)]
+            n = [rng.randint(min_n, min(nmax, 3)) for _ in range(ndim)]
+            pmax = [a + k * c for a, k, c in zip(pmin, n, cell)]
     bc = ""
     if bc_prob and rng.random() < bc_prob:
         dd = dims or (["x", "y", "z"][:ndim] if ndim <= 3 else [f"x{i}" for i in range(ndim)])
         cand = [d for d in dd if len(d) == 1]
         bc = "".join(d for d in cand if rng.random() < 0.6)
-    return dict(p1=[float(x) for x in pmin], p2=[float(x) for x in pmax], n=n, dims=dims, bc=bc)
+    return dict(p1=[float(x) for x in pmin], p2=[float(x) for x in pmax], n=n, dims=dims, bc=bc, intcorners=intcorners)
 
 
 def build_mesh(spec, subregions=None):
@@ -63,7 +80,10 @@ def build_mesh(spec, subregions=None):
         kw["dims"] = spec["dims"]
     if spec.get("units"):
         kw["units"] = spec["units"]
-    r = df.Region(p1=spec["p1"], p2=spec["p2"], **kw)
+    p1, p2 = spec["p1"], spec["p2"]
+    if spec.get("intcorners") and all(float(x).is_integer() for x in list(p1) + list(p2)):
+        p1, p2 = [int(x) for x in p1], [int(x) for x in p2]  # integer-typed corner arrays
+    r = df.Region(p1=p1, p2=p2, **kw)
     return df.Mesh(region=r, n=spec["n"], bc=spec.get("bc", ""), subregions=subregions)
 
 
